@@ -461,7 +461,10 @@ Arith(S, p, glob) ==
                  ELSE LET cur == VarVal(r.s, iv.var)
                           g == IsGlobal(r.s, glob) IN
                       IF p = P_advance THEN SetVar(r.s, iv.var, cur + r.v, g)
-                      ELSE IF p = P_multiply THEN SetVar(r.s, iv.var, cur * r.v, g)
+                      ELSE IF p = P_multiply
+                           THEN (IF r.v # 0 /\ (IF cur < 0 THEN -cur ELSE cur) > Big \div (IF r.v < 0 THEN -r.v ELSE r.v)
+                                 THEN Skip(r.s, "skip-value-beyond-model")
+                                 ELSE SetVar(r.s, iv.var, cur * r.v, g))
                       ELSE IF r.v = 0 THEN Fail(r.s, "division by zero")
                       ELSE LET q == (IF cur < 0 THEN -cur ELSE cur) \div (IF r.v < 0 THEN -r.v ELSE r.v) IN
                            SetVar(r.s, iv.var, IF (cur < 0) # (r.v < 0) THEN -q ELSE q, g)
